@@ -187,6 +187,19 @@ CHECKS["C06"] = dict(
     note="Trusted: the reference interpreter and its definition convention, CrossHair/z3. Two open known findings (same root cause).",
     design="4/C06")
 
+CHECKS["C07"] = dict(
+    level="model_checking", engine="T",
+    technique="per generated program: real lian run (main.py semantic); CrossHair (z3) executes the reference GIR interpreter with "
+              "symbolic entry arguments, records every call event and checks it against semantic_p3/call_paths_p3 and the "
+              "per-context statement status rows",
+    text="For every program of the call family and ALL entry arguments (so every call site behind any branch is exercised), each "
+         "(caller, call statement, callee) the interpreter performs is a call site of some stored call path, and non-recursive "
+         "callees have analysis results under that call-site context. CONFIRMED = all paths of all programs in the slice "
+         "exhausted. Single-file programs; the family is the bound.",
+    note="Trusted: the reference interpreter's dispatch (validated against CPython by C01 on the same programs), CrossHair/z3, "
+         "Python's deterministic hash of int tuples for context ids. One open known finding (method chain on a returned object).",
+    design="4/C07")
+
 NOT_APPLICABLE = {
     "C12": "A relation between two whole-pipeline runs on syntactically edited programs: the quantified objects are "
            "program texts and edit sequences; no run-time input, id, flag or history for a solver to range over; "
